@@ -1,4 +1,4 @@
-"""Worker of check C16: runs the three engines in ONE hash-seed mode.
+"""Worker of check C16: runs the engines SEQ, SCHED, CRASH, PAIRS in ONE hash-seed mode.
 
 Started by vp/checks/c16.py as ``python -m vp.c16_worker`` with PYTHONHASHSEED unset, "0"
 or "1" in the environment; reads one JSON job from stdin, prints one line
@@ -41,13 +41,15 @@ JUNK = {
     "junk-import": b"cno_such_module_c16\nNoSuchClass\n.",
     "junk-attr": b"csympy\nNoSuchNameC16\n.",
 }
-SEED_KINDS = {
-    "quick": ["empty", "torn:half", "junk-import"],
-    "thorough": ["empty", "torn:half", "junk-import", "junk-attr"],
-}
+# contents of pre-seeded entry files in SEQ (both tiers; every byte prefix is enumerated
+# by CRASH, the second kind of unloadable pickle is a start directory of SCHED/CRASH)
+SEED_KINDS = ["empty", "torn:half", "junk-import"]
 DEPTH = {"quick": 3, "thorough": 4}
 BOUND = {"quick": 1, "thorough": 2}
-START_KINDS = ["empty", "warm", "torn"]
+START_KINDS = {
+    "quick": ["empty", "warm", "torn"],
+    "thorough": ["empty", "warm", "torn", "unloadable"],
+}
 REPLAY_SAMPLE_EVERY = 10
 
 
@@ -57,7 +59,7 @@ class World:
         import sympy as sp  # noqa: PLC0415
 
         import ampform.sympy as asp  # noqa: PLC0415
-        from vp.checks.c16 import build_alphabet  # noqa: PLC0415
+        from vp.checks.c16 import build_alphabet, build_extras  # noqa: PLC0415
 
         env = os.environ.get("PYTHONHASHSEED")
         if (mode == "unset") != (env is None) or (env is not None and env != mode):
@@ -67,6 +69,8 @@ class World:
         self.sp = sp
         self.fn = asp.perform_cached_doit
         alphabet = build_alphabet()
+        self.n_core = len(alphabet)  # e1..e6: all engines; the extras: engine PAIRS only
+        alphabet = alphabet + build_extras()
         self.names = [n for n, _ in alphabet]
         self.index = {n: i for i, n in enumerate(self.names)}
         self.exprs = [e for _, e in alphabet]
@@ -78,6 +82,12 @@ class World:
             for j, f in enumerate(self.exprs):
                 if j != k and self.strs[j] == self.strs[k] and e != f:
                     self.partner[k] = j
+        # different expressions with the same Python hash (only meaningful when the seed
+        # is fixed; evaluated by the harness on the inputs)
+        self.same_hash: dict[int, list[int]] = {
+            k: [j for j, f in enumerate(self.exprs) if j != k and e != f and hash(e) == hash(f)]
+            for k, e in enumerate(self.exprs)
+        }
         # the alphabet must be what RULE says it is (else the exploration is vacuous)
         if self.partner != {0: 1, 1: 0, 2: 3, 3: 2}:
             msg = f"alphabet has no longer the intended colliding pairs: {self.partner}"
@@ -215,7 +225,6 @@ class World:
                     if where else "?"
                 ),
             }
-        sp = self.sp
         try:
             ok = bool(val == self.ref[k]) and self.srepr(val) == self.ref_srepr[k]
         except Exception:  # noqa: BLE001
@@ -231,6 +240,10 @@ class World:
             symptom = "wrong:not-unfolded"
         else:
             symptom = "wrong:other"
+            for i, r in enumerate(self.ref):
+                if i != k and val == r and self.srepr(val) == self.ref_srepr[i]:
+                    symptom = f"wrong:unfolding-of-{self.names[i]}"
+                    break
         return {
             "symptom": symptom,
             "text": f"returned {str(val)[:90]} [{type(val).__name__}], expected {str(self.ref[k])[:90]}",
@@ -260,6 +273,19 @@ class World:
             and symptom == "wrong:partner-unfolding"
         ):
             tags.append("str-hash-collision")
+            # finer predicate (what the two expressions differ in), should only one kind
+            # of collision be repaired: e1/e2 symbol assumptions, e3/e4 non-SymPy attribute
+            tags.append(
+                "str-hash-collision:symbol-assumptions" if k in (0, 1)
+                else "str-hash-collision:non-sympy-attribute"
+            )
+        # (d) fixed hash seed AND the history contains a different expression with the same
+        # Python hash, whose unfolding is what came back
+        if self.mode != "unset":
+            for i in self.same_hash.get(k, []):
+                if i in earlier_exprs and symptom == f"wrong:unfolding-of-{self.names[i]}":
+                    tags.append("python-hash-collision")
+                    break
         # (b) the directory the failing call started from holds an entry file for this
         # expression that is not a complete loadable pickle
         bad = any(
@@ -381,7 +407,7 @@ def _fmt_history(history) -> str:
     return "[" + ", ".join(one(op) for op in history) + "]"
 
 
-def seq_note(tally, k, res, state, history, op, traced):
+def seq_note(tally, k, res, state, history, op, traced, engine="SEQ"):
     verdict = W.judge(k, res)
     tally.verdict(verdict)
     if state and not traced:
@@ -394,10 +420,11 @@ def seq_note(tally, k, res, state, history, op, traced):
         any(W.same_key(c, k) for c in crashed), False,
     )
     full = [*history, op]
+    used = {o[1] for o in full}
     tally.violations.append(_violation(
-        "SEQ", k, verdict, tags,
+        engine, k, verdict, tags,
         {"engine": "seq", "mode": W.mode, "history": full,
-         "expressions": {n: s for n, s in zip(W.names, W.strs)}},
+         "expressions": {n: s for n, s in zip(W.names, W.strs) if n in used}},
         f"last operation of history {_fmt_history(full)}",
         {"directory_before_failing_call": W.describe(state)},
     ))
@@ -406,9 +433,9 @@ def seq_note(tally, k, res, state, history, op, traced):
 
 def seq_ops_seed(tier):
     ops = []
-    for k, name_k in enumerate(W.names):
+    for k, name_k in enumerate(W.names[: W.n_core]):
         for fi, fname in enumerate(sorted(W.entry[k])):
-            kinds = list(SEED_KINDS[tier])
+            kinds = list(SEED_KINDS)
             j = W.partner.get(k)
             # a valid pickle of ANOTHER expression under this key: only where a real
             # collision produces it (same entry file name in this hash-seed mode)
@@ -438,7 +465,7 @@ def seq_expand(task):
                 removed = [n for n in state if n not in new_state]
                 succ[key] = (op, (changed, removed))
 
-    n = len(W.exprs)
+    n = W.n_core
     plain = []
     for k in range(n):
         d = W.fresh(state)
@@ -541,6 +568,39 @@ def run_seq(pool, tally_total, summary):
     return states, transitions
 
 
+# ================================================================ engine PAIRS
+def pairs_task(a):
+    """Histories [call a, call b, call a] on an empty directory, for every b != a of the
+    extended catalogue (replayable as SEQ histories)."""
+    tally = Tally()
+    for b in range(len(W.exprs)):
+        if b == a:
+            continue
+        d = W.fresh({})
+        history: list = []
+        try:
+            for q in (a, b, a):
+                before = W.snapshot(d)
+                res = W.call(q, d)
+                op = ["call", W.names[q]]
+                seq_note(tally, q, res, before, history, op, False, "PAIRS")
+                history.append(op)
+                tally.c["executions"] += 1
+                tally.c["pairs_transitions"] += 1
+        finally:
+            W.remove(d)
+        tally.c["pairs_histories"] += 1
+    if a == len(W.exprs) - 3:
+        tally.samples.append({
+            "engine": "PAIRS", "hash_seed": W.mode,
+            "history": _fmt_history([["call", W.names[a]], ["call", W.names[a + 1]],
+                                     ["call", W.names[a]]]),
+            "expressions": {W.names[a]: W.strs[a], W.names[a + 1]: W.strs[a + 1]},
+            "equal_python_hash": (a + 1) in W.same_hash[a],
+        })
+    return tally.export()
+
+
 # ================================================================ engine SCHED
 def start_state(kind: str, a: int, b: int) -> dict:
     if kind == "empty":
@@ -554,6 +614,8 @@ def start_state(kind: str, a: int, b: int) -> dict:
         return st
     if kind == "torn":  # the entry of the first caller is a torn write
         return {name: content[: len(content) // 2] for name, content in W.entry[a].items()}
+    if kind == "unloadable":  # ... is a well-formed pickle whose class no longer exists
+        return {name: JUNK["junk-attr"] for name in W.entry[a]}
     raise HarnessError(kind)
 
 
@@ -594,7 +656,7 @@ def sched_observation(a, b, ex) -> str:
     return hashlib.sha256(blob.encode()).hexdigest()[:16]
 
 
-def sched_judge(tally, a, b, kind, start, ex, case_extra=None):
+def sched_judge(tally, a, b, kind, start, ex):
     """Oracle on one execution; failing schedules are re-executed twice with observation."""
     verdicts = [W.judge(k, r) for k, r in zip((a, b), ex.results)]
     for v in verdicts:
@@ -695,7 +757,7 @@ def sched_tasks():
     # in quick (races that need two switches, e.g. both callers discarding a torn entry)
     tasks = []
     for a, b in pairs:
-        for kind in START_KINDS:
+        for kind in START_KINDS[W.tier]:
             bd = max(bound, 2) if (a, b) == (0, 0) else bound
             # a bound-2 tree has thousands of executions: cut it into slices for the pool
             parts = (8 if W.tier == "quick" else 4) if bd >= 2 else 1
@@ -841,9 +903,9 @@ def crash_task(task):
 def crash_tasks():
     """Byte prefixes (heavy, empty start only: what is written does not depend on the
     start directory) first, then the crash points of every (writer, start directory)."""
-    n = len(W.exprs)
+    n = W.n_core
     tasks = [(k, "empty", c) for k in range(n) for c in range(PREFIX_CHUNKS)]
-    tasks += [(k, kind, "points") for k in range(n) for kind in START_KINDS]
+    tasks += [(k, kind, "points") for k in range(n) for kind in START_KINDS[W.tier]]
     return tasks
 
 
@@ -942,7 +1004,12 @@ def _crash_guarded(task):
     return _guard(crash_task, task)
 
 
-_GUARDED = {seq_expand: _seq_expand_guarded, sched_config: _sched_guarded, crash_task: _crash_guarded}
+def _pairs_guarded(task):
+    return _guard(pairs_task, task)
+
+
+_GUARDED = {seq_expand: _seq_expand_guarded, sched_config: _sched_guarded,
+            crash_task: _crash_guarded, pairs_task: _pairs_guarded}
 
 
 def _submit(pool, fn, tasks, chunk=1):
@@ -1021,6 +1088,13 @@ def main_job(job: dict) -> dict:
             _phase("crash done")
             sched_res = list(_consume(sched_it))
             _phase("sched done")
+            # last, and only after everything else is finished: unfolding the extra
+            # expressions (Wigner D) churns SymPy's LRU cache, which changes object sharing
+            # - and with it the byte length of later pickles, i.e. the number of prefixes
+            pairs_it = _submit(pool, pairs_task, list(range(len(W.exprs))))
+            for res in _consume(pairs_it):
+                merge(total, res)
+            _phase("pairs done")
         finally:
             if pool is not None:
                 pool.close()
@@ -1050,7 +1124,15 @@ def main_job(job: dict) -> dict:
         # follow-up calls + every scheduler step of every interleaving (one atomic step of
         # the two-caller system, executed by the implementation)
         crash_states = total.c["crash_points"] + total.c["byte_prefixes"]
-        extra_transitions = total.c["sched_steps"] + total.c["crash_followup_calls"]
+        extra_transitions = (
+            total.c["sched_steps"] + total.c["crash_followup_calls"] + total.c["pairs_transitions"]
+        )
+        summary["pairs"] = {
+            "histories": total.c["pairs_histories"],
+            "expressions_with_equal_python_hash": sorted(
+                [W.names[k], W.names[j]] for k, js in W.same_hash.items() for j in js if k < j
+            ),
+        }
         # dedupe violations by signature, keep the first (shortest history) witness
         by_sig: dict = {}
         tag_exec: collections.Counter = collections.Counter()
